@@ -451,6 +451,137 @@ class TableStream(Stream):
         return pl["f"] + " ".join(pl["pars"]) + pl["cfg"]
 
 
+class GenTableStream(TableStream):
+    """the same probes of `map_math_functions_by_name`, answered by the INTERPRETATION OF THE TABLE
+    REGENERATED FROM THE SOURCE (`c10FuncMapT Generated.c10DiffTable`, T-gen) instead of the
+    hand-written `funcMap`"""
+    name = "function-table-generated"
+
+    def request(self, pl):
+        return f"(funcmapT {pl['cfg']} {pl['f']} ({' '.join(pl['pars'])}))"
+
+
+class GenTreeStream(TreeStream):
+    """derivative trees of the table-driven differentiator (`c10DiffT Generated.c10DiffTable`: the
+    rules as re-read from the source on this run, no CSE cache) against the real `differentiate`,
+    on the exhaustive shape enumeration and random trees without `==`-confusable wrappers"""
+    name = "generated-table-trees"
+
+    def cases(self, rng, tier):
+        yield from shape_cases()
+        n = 600 if tier == "quick" else 8000
+        for i in range(n):
+            g = DiffGen(rng, junk=0.02 if i % 3 else 0.0, floats=0.0)
+            g.variant = lambda c: c          # no deliberately ==-confusable wrappers here
+            e = g.gen(rng.randint(1, 4))
+            v, vs = DIFF_VARS[i % len(DIFF_VARS)]
+            yield payload(e, v, vs, CFGS[i % 3])
+
+    def request(self, pl):
+        return f"(difftable {pl['cfg']} {pl['var']} {pl['expr']})"
+
+    def agree(self, model, impl, pl):
+        v = super().agree(model, impl, pl)
+        if v == "diff" and confusable_cses(sx_to_expr(loads(pl["expr"]))):
+            return "trivial"         # the real mapper answers the second wrapper from its cache
+        return v
+
+    def oracle(self, pl):
+        return None                  # the same inputs are judged in the stream `trees`
+
+    def stats(self, pl, mo, io, acc):
+        oc = acc.setdefault("outcomes", {})
+        k = io if io.startswith("(err") else "tree"
+        oc[k] = oc.get(k, 0) + 1
+
+
+class RuleStream(Stream):
+    """`map_quotient` / `map_power` of the REAL mapper run with PRESCRIBED derivatives of the two
+    children (a subclass whose `rec` answers `df`, `dg`), against the interpretation of the branch
+    chains regenerated from the source (`c10RuleEval Generated.c10DiffTable.quot/.pow`): every
+    branch, also with derivative values no input reaches (falsy floats, booleans, nested sums)"""
+    name = "two-child-rules"
+
+    def cases(self, rng, tier):
+        kids = [x, y, 2, 1, 0, -3, p.Sum((x, 1)), p.Product((2, x)), p.Product((x, y)),
+                p.Power(x, 2), mf("sin", x), p.Quotient(x, y), p.CommonSubexpression(x)]
+        ders = [0, 1, 2, -1, False, True, x, y, p.Sum((x, y)), p.Product((2, x)), p.Sum(()),
+                p.Product(()), mf("cos", x), p.Quotient(1, x), p.Power(x, -1),
+                p.CommonSubexpression(0), p.CommonSubexpression(1)]
+        for which in ("quot", "pow"):
+            for f, g in itertools.product(kids[:7], kids[:7]):
+                for df, dg in itertools.product(ders[:9], ders[:9]):
+                    yield self.payload(which, f, g, df, dg)
+        n = 1500 if tier == "quick" else 30000
+        for i in range(n):
+            gen = DiffGen(rng, junk=0.0, floats=0.0)
+            f = rng.choice(kids) if rng.random() < 0.5 else gen.gen(2)
+            g = rng.choice(kids) if rng.random() < 0.5 else gen.gen(2)
+            df = rng.choice(ders) if rng.random() < 0.6 else gen.gen(2)
+            dg = rng.choice(ders) if rng.random() < 0.6 else gen.gen(2)
+            yield self.payload("quot" if i % 2 else "pow", f, g, df, dg)
+
+    @staticmethod
+    def payload(which, f, g, df, dg):
+        fs, gs = dumps(expr_to_sx(f)), dumps(expr_to_sx(g))
+        if fs == gs:
+            dg = df               # one child object: `rec` answers the same for both
+        return {"which": which, "f": fs, "g": gs, "df": dumps(expr_to_sx(df)),
+                "dg": dumps(expr_to_sx(dg))}
+
+    def request(self, pl):
+        return f"(diffrule {pl['which']} {pl['f']} {pl['g']} {pl['df']} {pl['dg']})"
+
+    def run_impl(self, pl):
+        from pymbolic.mapper.differentiator import DifferentiationMapper
+        f, g, df, dg = (sx_to_expr(loads(pl[k])) for k in ("f", "g", "df", "dg"))
+        calls = []
+
+        class Prescribed(DifferentiationMapper):
+            def rec(self, expr, *args):
+                calls.append(expr)
+                if len(calls) == 1:
+                    return df
+                if len(calls) == 2:
+                    return dg
+                return df if expr is f else dg
+
+        m = Prescribed(x)
+        if pl["which"] == "quot":
+            node, fn = p.Quotient(f, g), m.map_quotient
+        else:
+            node, fn = p.Power(f, g), m.map_power
+        with warnings.catch_warnings():
+            warnings.simplefilter("ignore")
+            return tree_sx(lambda: fn(node))
+
+    def shrink(self, pl):
+        for k in ("f", "g", "df", "dg"):
+            for s_ in sx_shrinks(loads(pl[k])):
+                yield {**pl, k: dumps(s_)}
+
+    def nontrivial_key(self, pl, model, impl):
+        return json_key(pl)
+
+
+def confusable_cses(e):
+    """two CommonSubexpression nodes that are `==` but not the same tree (1 / True / 1.0)"""
+    cs = [t for t in dual.subterms(e) if isinstance(t, p.CommonSubexpression)]
+    for i, a in enumerate(cs):
+        for b in cs[i + 1:]:
+            try:
+                if a == b and dumps(expr_to_sx(a)) != dumps(expr_to_sx(b)):
+                    return True
+            except Exception:
+                return True
+    return False
+
+
+def json_key(pl):
+    import json
+    return json.dumps(pl, sort_keys=True)
+
+
 # }}}
 
 # {{{ the property's own oracle
@@ -653,23 +784,36 @@ def probes():
     return res
 
 
+def extract(ctx=None):
+    """T-gen: lean/PV/Generated/Diff.lean from the source of pymbolic/mapper/differentiator.py"""
+    from extract.differentiator import extract_diff_table
+    return extract_diff_table(ctx)
+
+
 PROP = Prop(
     id="C10",
     title="Symbolic differentiation yields the true derivative",
     lean_targets=["PV.Properties.C10"],
     theorems=[],
-    streams=[TreeStream(), HistStream(), TableStream()],
+    extractors=[extract],
+    streams=[TreeStream(), HistStream(), TableStream(), GenTableStream(), GenTreeStream(),
+             RuleStream()],
     probes=[probes],
     trusted_base=[
         "Lean 4.33 kernel; axioms propext, Classical.choice, Quot.sound only",
         "Mathlib's real analysis (HasDerivAt, Real.sin/cos/tan/exp/log/sinh/cosh/tanh, Real.rpow)",
         "the model of the overloaded operators (C03) and of Python == (C01)",
+        "extract/differentiator.py: reads map_math_functions_by_name, every DifferentiationMapper "
+        "handler and differentiate() from the source with ast (an unrecognised shape is an "
+        "extraction error, never a default); the meaning given to the table's terms "
+        "(PV/Model/DiffTable.lean: c10TmEval) is validated by the correspondence streams "
+        "function-table-generated, generated-table-trees and two-child-rules",
         "harness serialisation",
     ],
     assumptions=["the meaning of math.<f> is the real function f; floating-point evaluation of the "
                  "derivative tree is not modelled (the search oracle compares floats with relative "
                  "tolerance 1e-6 plus running rounding-error bounds)"],
-    level_text="Lean theorem diff_hasDerivAt (unbounded: all expressions, variables and subscripted variables, all three settings): whenever the modelled differentiator returns a tree d for e, and the point lies in the domain of e (denominators nonzero, log arguments and bases of non-integer powers positive, cos nonzero under tan, arguments of fabs/copysign nonzero, conditions locally constant), the real function t -> eval(e)[v:=t] has derivative eval(d) at that point (Mathlib HasDerivAt). diff_refuses: fabs, copysign, If and unknown functions with arguments are refused unless the setting allows them. diff_var_absent: a variable that does not occur gives a tree that evaluates to 0. Tied to differentiate()/DifferentiationMapper by correspondence on derivative trees and error kinds; independent dual-number oracle on the real code.",
+    level_text="Lean theorem diff_hasDerivAt (unbounded: all expressions, variables and subscripted variables, all three settings): whenever the modelled differentiator returns a tree d for e, and the point lies in the domain of e (denominators nonzero, log arguments and bases of non-integer powers positive, cos nonzero under tan, arguments of fabs/copysign nonzero, conditions locally constant), the real function t -> eval(e)[v:=t] has derivative eval(d) at that point (Mathlib HasDerivAt). diff_refuses: fabs, copysign, If and unknown functions with arguments are refused unless the setting allows them. diff_var_absent: a variable that does not occur gives a tree that evaluates to 0. Tied to differentiate()/DifferentiationMapper by (1) T-gen: the function table (derivative expressions, gates, error classes), the branch chains of map_quotient/map_power, the If gate, the leaf rules and a shape descriptor of every handler are re-read from the SOURCE on every run (lean/PV/Generated/Diff.lean) and diff_eq_table_current / handler_shapes_current prove that this table, interpreted, is the model the theorems are about; (2) correspondence on derivative trees and error kinds, also through the interpreted regenerated table and by running the real map_quotient/map_power with prescribed child derivatives; independent dual-number oracle on the real code.",
     level_note="Known findings kept as counterexample theorems: copysign differentiated w.r.t. its first argument gives 0; log of an integer constant other than 1 crashes (AttributeError from pymbolic.rational); the power rule emits the free variable `log` instead of math.log. `If` only under the hypothesis that the condition is locally constant. The CSE cache is modelled (diffC) and proved irrelevant when == identifies no two different CSE nodes; float results of int/int true division are outside the tree model (model abstains).",
     technique="Lean 4 + Mathlib analysis: mutual structural induction over the differentiator model with soundness lemmas for the overloaded operators over the reals; differential correspondence; forward-mode dual numbers over Fraction / floats with running error bounds",
     design_ref="DESIGN.md §4 C10",
